@@ -333,7 +333,7 @@ class PosBase(np.ndarray):
 
     def __setattr__(self, key, value):
         self.clear_cache()  # Clear cache if any attributes change
-        if key in self._attributes():
+        if key in self._attributes() + ["ref_pos"]:  # Conversions of deltas depend on the reference position as well
             prev_attr_value = getattr(self, key, None)
             if prev_attr_value is not None:
                 try:
